@@ -1,5 +1,6 @@
 SPECIFICATION Spec
-CONSTANT MaxFaults = 2
-CONSTRAINT Neighbours
+CONSTANTS
+  MaxFaults = 2
+  Window = 2
 INVARIANT Dump
 CHECK_DEADLOCK FALSE
